@@ -3,8 +3,10 @@
 
 use crate::rt::{Outcome, RunCfg};
 
+pub mod c01;
 pub mod c02;
 pub mod c03;
+pub mod c04;
 pub mod c05;
 pub mod c06;
 
@@ -19,8 +21,10 @@ pub struct PropInfo {
 
 pub fn info(prop: &str) -> Option<PropInfo> {
     match prop {
+        "C01" => Some(c01::INFO),
         "C02" => Some(c02::INFO),
         "C03" => Some(c03::INFO),
+        "C04" => Some(c04::INFO),
         "C05" => Some(c05::INFO),
         "C06" => Some(c06::INFO),
         _ => None,
@@ -29,12 +33,14 @@ pub fn info(prop: &str) -> Option<PropInfo> {
 
 pub fn run(prop: &str, cfg: &RunCfg, direct: Option<&serde_json::Value>) -> Outcome {
     match prop {
+        "C01" => c01::run(cfg, direct),
         "C02" => c02::run(cfg, direct),
         "C03" => c03::run(cfg, direct),
+        "C04" => c04::run(cfg, direct),
         "C05" => c05::run(cfg, direct),
         "C06" => c06::run(cfg, direct),
         _ => panic!("unknown property {prop}"),
     }
 }
 
-pub const ALL: &[&str] = &["C02", "C03", "C05", "C06"];
+pub const ALL: &[&str] = &["C01", "C02", "C03", "C04", "C05", "C06"];
